@@ -152,6 +152,7 @@ def jarAssemble (fixed : Bool) (z : Bytes) (d : Directory) (ms : List Member) (n
   match walk fixed true jarKeep ms 0 nd0 [] with
   | .ok (nd, dels, pos) =>
     if fixed && decide (pos ≠ d.dirLoc) then .err "notcontig" else
+    if !headersOK nd.files then .err "extratoolong" else   -- fix-F7g (`WriteDirectory` fails, `insertSignature` returns the error)
     let (cd, eod, _) := writeDirectory nd false
     .ok (body ++ applyDels z 0 dels d.dirLoc ++ cd ++ eod)
   | .err x => .err x
@@ -220,6 +221,7 @@ def manglerAssemble (fixed : Bool) (z : Bytes) (d : Directory) (ms : List Member
   | .ok (nd1, dels, pos) =>
     if fixed && decide (pos ≠ d.dirLoc) then .err "notcontig" else
     let (body, nd) := addNews mt md news ([], nd1)
+    if !headersOK nd.files then .err "extratoolong" else   -- fix-F7g (`MakePatch` returns the error of `WriteDirectory`)
     let (cd, eod, _) := writeDirectory nd force
     .ok (applyDels z 0 dels d.dirLoc ++ body ++ cd ++ eod)
   | .err x => .err x
